@@ -35,7 +35,7 @@ RULE = ("each run generates a redirect graph over 2-8 URLs on up to three hosts 
         "issues 1-3 fetches; results are compared with a walk of the graph. distinct = distinct "
         "(graph shape, max_redirects, result class) signatures; non-trivial = the walk contained "
         "at least one redirect")
-PROBES = ["host_switches_to_an_expired_certificate", "hop_trickles_its_header", "hop_speaks_first_tls12", "slow_hops_sum_exceeds_timeout", "hop_stalls_or_resets_after_its_3x_header", "overlapping_fetches_with_certificate_rotation", "hop_closed_without_header", "redirect_target_host_in_upper_case", "chain_exactly_max", "chain_longer_than_max", "cycle", "self_loop", "cross_host_hop",
+PROBES = ["nodes_differ_only_in_the_query", "host_switches_to_an_expired_certificate", "hop_trickles_its_header", "hop_speaks_first_tls12", "slow_hops_sum_exceeds_timeout", "hop_stalls_or_resets_after_its_3x_header", "overlapping_fetches_with_certificate_rotation", "hop_closed_without_header", "redirect_target_host_in_upper_case", "chain_exactly_max", "chain_longer_than_max", "cycle", "self_loop", "cross_host_hop",
           "grey_target", "non_gemini_target", "cert_changed_on_hop", "cert_swapped_on_later_hop", "overlapping_fetches", "sql_fault_during_fetch", "follow_disabled",
           "max_redirects_zero", "final_after_redirects"]
 COMPONENTS = {
@@ -59,7 +59,11 @@ def run_one(ch):
     nodes = []
     for j in range(nn):
         h = HOSTS[ch.choose("nhost", 3, [3, 2, 1])]
-        nodes.append({"host": h, "path": f"/n{j}", "url": f"gemini://{h}/n{j}"})
+        pth = f"/n{j}"
+        if j and nodes[-1]["host"] == h and ch.chance("samepath", 0.2):
+            # same host and path as the previous node, another query: a different resource
+            pth = nodes[-1]["path"].split("?")[0] + f"?v={j}"
+        nodes.append({"host": h, "path": pth, "url": f"gemini://{h}{pth}"})
     for j, nd in enumerate(nodes):
         k = ch.choose("nkind", 13, [6, 24, 1, 1, 1, 1, 1, 1, 1, 1, 3, 2, 1])
         if k == 0:
@@ -151,7 +155,7 @@ def run_one(ch):
                 except Exception:
                     txt = ""
                 path = "/" + txt.split("/", 3)[3] if txt.count("/") >= 3 else "/"
-                nd = next((n for n in nodes if n["host"] == host and n["path"] == path.split("?")[0]), None)
+                nd = next((n for n in nodes if n["host"] == host and n["path"] == path), None)
                 if nd is None:
                     peer.send_app(b"51 no such node\r\n")
                 elif nd["kind"] == "drop":
@@ -340,6 +344,8 @@ def run_one(ch):
                 st["hop_stalls_or_resets_after_its_3x_header"] = 1
             if nd.get("spelled"):
                 st["redirect_target_host_in_upper_case"] = 1
+            if "?" in nodes[nxt]["path"] or "?" in nd["path"]:
+                st["nodes_differ_only_in_the_query"] = 1
             k += 1
             cur = nxt
         if k:
